@@ -36,8 +36,10 @@ class P(FlowRobust):
         ml = []
         for l in self.lines:
             t = l.split(" ", 1)
-            proto = {"ipfixh": "ipfix", "nf9h": "nf9", "nf5": "nf5"}.get(t[0])
-            if proto:
+            proto = {"ipfixh": "ipfix", "nf9h": "nf9", "nf5": "nf5", "sflow": "sflow"}.get(t[0])
+            if proto == "sflow":
+                ml.append("measure sflow x00 " + t[1].split()[-1])
+            elif proto:
                 ml.append("measure %s %s" % (proto, t[1]))
         res = vf.run_impl(ml, shards=1)
         viol, worst, n = [], (0, ""), 0
